@@ -32,5 +32,6 @@ var (
 	errAdminProhibited              = errors.New("permission request administratively prohibited")
 	errFailedToGenerateConnectionID = errors.New("failed to generate a unique connection id")
 	errInvalidPeerAddress           = errors.New("invalid peer address")
+	errAllocationClosed             = errors.New("allocation is closed")
 	errNilRelaySocket               = errors.New("allocation has no relay socket")
 )
